@@ -26,7 +26,8 @@ def LineTemp.get (m : LineTemp R) (isFault : Bool) (ctx : Ctx R) (depth gravityN
     if d ≤ mx ∧ d ≥ mn then
       let topL := if top < 0 then adiabat ctx.potentialT ctx.alpha gravityNorm ctx.cp mn else top
       let botL := if bottom < 0 then adiabat ctx.potentialT ctx.alpha gravityNorm ctx.cp mx else bottom
-      applyOp op old (topL + (d - mn) * ((botL - topL) / (mx - mn)))
+      -- the degenerate range is guarded like in the area copies (fixed upstream: 0 * (x / 0) was NaN on the surface `d = mn = mx`)
+      applyOp op old (topL + (if mx - mn < (10.0 : R) * Scalar.eps then (0.0 : R) else (d - mn) * ((botL - topL) / (mx - mn))))
     else old
   | .adiabatic mn mx op tp alpha cp =>
     if d ≤ mx ∧ d ≥ mn then applyOp op old (adiabat tp alpha gravityNorm cp depth) else old
